@@ -279,6 +279,6 @@ def replay_item(item):
     except Exception as e:
         out['final'] = {}
     ev = rec.finish(out)
-    hdr = {'nsym': 1, 'fee_n': 0, 'fee_d': 1, 'n': len(hist), 'pseed': 0, 'cseed': 0, 'pden': 1000,
+    hdr = {'nsym': 1, 'spot': False, 'fee_n': 0, 'fee_d': 1, 'n': len(hist), 'pseed': 0, 'cseed': 0, 'pden': 1000,
            'exc': (exc or 'none')[:120], 'src': item.get('src', 'R')}
     return {'id': item['id'], 'hdr': hdr, 'ev': ev}
